@@ -24,7 +24,10 @@ RULE = {
          'direction incl. axis-aligned and antiparallel to z; transforms none / translation / rotation / non-uniform and mirroring scale / '
          'compositions of 2..5) the constructor and 6 rays of 8 kinds (outside aimed at the surface, origin inside, surface behind, tangent band '
          '1+-10^-k, poles / axis, clip edges +-10^-k, random, axis-parallel; directions unit / non-unit 1e-3..1e3) through one of: local basic '
-         'intersection (zero or small error boxes), intersect_local_ray, intersect, simple_intersect; corpus (F4, F8 witnesses) first; '
+         'intersection (zero or small error boxes), intersect_local_ray, intersect, simple_intersect; from a second generator state (the other cases do not '
+         'depend on it): simple_intersect_local_ray with error boxes (op 6), intersection_info called on its own at the crate\'s own hit point or a surface point '
+         '(op 7), world_bounds() / centre() (op 8; 5, 7, 8: correspondence only); every call is evaluated by the recomposition of the model\'s components AND by '
+         'the named model definition of that call; corpus (F4, F8 witnesses) first; '
          'non-trivial = a ray case whose path tag is not "no real root"; distinct = distinct (op, shape args, transform, ray) bit patterns'),
  'C03': ('stream C03quadric: as C02quadric with 80% clipped shapes and rays weighted to origins inside, surfaces behind, tangent band and clip '
          'edges, through basic / intersect / simple_intersect; oracle only on rays whose analytic crossings clear every decision boundary '
@@ -205,12 +208,15 @@ def quad_form(g, p):
 def in_pole_band(g, p, slack=Fr(101, 100)):
     return g.shape == 0 and abs(p[0]) <= slack * g.r / 100000 and abs(p[1]) <= slack * g.r / 100000
 
+# ops whose ray and reported point live in the shape's own frame: 1 basic intersection, 2 intersect_local_ray, 6 simple_intersect_local_ray
+LOCAL_OPS = (1, 2, 6)
+
 def ray_of(c, g):
     """(origin, direction, world?) as Fractions in the frame the op works in, plus the local ray"""
     r = fl(c, 'ray')
     if not all(finite(x) for x in r): return None
     o = [Fr(x) for x in r[:3]]; d = [Fr(x) for x in r[3:]]
-    if c['op'] in (1, 2): return o, d, o, d          # local op: the shape's own frame
+    if c['op'] in LOCAL_OPS: return o, d, o, d          # local op: the shape's own frame
     return o, d, to_local_pt(g, o), to_local_vec(g, d)
 
 # ------------------------------------------------------------------ C02
@@ -240,7 +246,7 @@ def oracle_c02(c):
     if rr is None or not all(finite(x) for x in out[:3]): return ('C02:quadric:%s:non-finite-hit' % sh, 'hit point %r' % out[:3]) if rr else None
     o, d, ol, dl = rr
     P = [Fr(x) for x in out[:3]]
-    p = P if c['op'] in (1, 2) else to_local_pt(g, P)
+    p = P if c['op'] in LOCAL_OPS else to_local_pt(g, P)
     # on the quadric, within 1e-9 relative (on the radius)
     q = quad_form(g, p)
     if abs(q) > 2 * TOL * g.r * g.r * (1 + TOL):
@@ -253,7 +259,7 @@ def oracle_c02(c):
         if ph > g.phimax + 1e-9 and ph < TWO_PI - 1e-9:
             return ('C02:quadric:%s:outside-phi-clip' % sh, 'phi = %r > phi_max = %r' % (ph, g.phimax))
     # on the ray, ahead of the origin (zero error boxes only: with boxes the "ray" is a family of rays)
-    if c['op'] in (1, 2) and (any(b != 0 and b != 1 << 63 for b in c['oe']) or any(b != 0 and b != 1 << 63 for b in c['de'])): return None
+    if c['op'] in LOCAL_OPS and (any(b != 0 and b != 1 << 63 for b in c['oe']) or any(b != 0 and b != 1 << 63 for b in c['de'])): return None
     dd = n2(d)
     if dd == 0: return ('C02:quadric:%s:off-ray' % sh, 'hit reported for a zero direction')
     w = sub(P, o); t = dot(w, d) / dd
@@ -317,7 +323,7 @@ def expected_crossing(g, ol, dl):
 def oracle_c03(c):
     sh = SHAPE[c['shape']]
     if c['op'] == 0: return None
-    if c['op'] in (1, 2) and (any(b != 0 and b != 1 << 63 for b in c['oe']) or any(b != 0 and b != 1 << 63 for b in c['de'])): return None
+    if c['op'] in LOCAL_OPS and (any(b != 0 and b != 1 << 63 for b in c['oe']) or any(b != 0 and b != 1 << 63 for b in c['de'])): return None
     g = geom(c)
     if g is None: return None
     rr = ray_of(c, g)
@@ -335,7 +341,7 @@ def oracle_c03(c):
     out = fl(c, 'out')
     if not all(finite(x) for x in out[:3]): return ('C03:quadric:%s:wrong-point' % sh, 'non-finite hit')
     P = [Fr(x) for x in out[:3]]
-    p = P if c['op'] in (1, 2) else to_local_pt(g, P)
+    p = P if c['op'] in LOCAL_OPS else to_local_pt(g, P)
     tol = MARGIN * max(g.size, fsqrt(n2(ol), 20))
     if amax(sub(p, e[2])) <= tol: return None
     if e[3] is not None and amax(sub(p, e[3])) <= tol:
@@ -433,7 +439,9 @@ def expected_crossing_plain(g, ol, dl):
     return None
 
 def oracle(prop, c, st):
-    if c['op'] > 4: return None          # bounds / area: model correspondence only
+    # 5 bounds / area, 7 intersection_info called on its own, 8 world_bounds / centre: model correspondence only
+    # (6 = simple_intersect_local_ray reports a hit point: judged like op 1)
+    if c['op'] > 4 and c['op'] != 6: return None
     try:
         if prop == 'C02': return oracle_c02(c)
         if prop == 'C03': return oracle_c03(c)
